@@ -23,7 +23,7 @@ ASSUMPTIONS = ['table rules are deterministic, so BFS in the digraph of successf
 BUDGET = {'quick': 150, 'thorough': 1500}
 CHUNK = {'quick': 30, 'thorough': 120}
 REQUIRED = ['table_runs_checked', 'recovery_rule_runs_checked', 'trial_thresholds_checked', 'contact_steps_checked', 'sis_trial_counts_checked',
-            'enum_leaves', 'enum_laws_compared', 'enum_cases_read_off_full_data', 'perc_edges_checked', 'perc_big_graphs']
+            'rho_runs_checked', 'enum_leaves', 'enum_laws_compared', 'enum_cases_read_off_full_data', 'perc_edges_checked', 'perc_big_graphs']
 ENUM_SIMS = ['basic_discrete_SIR', 'percolation_based_discrete_SIR', 'basic_discrete_SIS', 'discrete_SIR']
 
 
@@ -37,6 +37,14 @@ def gen_cases(tier, seed):
         cs = case_seed(seed, PID + 'big', j)
         r = random.Random(cs)
         out.append({'kind': 'perc', 'big': {'n': N + r.randrange(100), 'k': r.choice([3, 4]), 'seed': cs, 'offset': r.choice([0, 7])}, 'p': r.choice([0.3, 0.5, 0.7]), 'seed': cs})
+    # initial condition through rho: the counts must describe the epidemic that is actually run
+    for j in range(300 if q else 6000):
+        cs = case_seed(seed, PID + 'rho', j)
+        r = random.Random(cs)
+        desc = gen.random_graph(r, 6, 30, kinds=['gnp', 'regular', 'config', 'complete', 'grid'])
+        desc['labels'] = r.choice(gen.LABEL_SCHEMES)
+        out.append({'kind': 'rho', 'sim': ['basic_discrete_SIR', 'percolation_based_discrete_SIR', 'discrete_SIR', 'basic_discrete_SIS'][j % 4], 'graph': desc,
+                    'rho': r.choice([0.2, 0.3, 0.5]), 'p': r.choice([0.3, 0.7, 1.0]), 'tmin': r.choice([0, -3, 2]), 'seed': cs})
     for k in range(n):
         cs = case_seed(seed, PID, k)
         r = random.Random(cs)
@@ -302,6 +310,39 @@ def run_trials_sis(case, res):
         res['sample'] = {'kind': 'trials_sis', 'graph': case['graph'], 'p': p, 'trials': len(cmps), 'successes': succ}
 
 
+def run_rho(case, res):
+    """rho given: S+I(+R) stays N at every step and (SIR, one-step infectious period) everybody infectious at step t is recovered at t+1"""
+    import EoN
+    G, lab = gen.build_graph(case['graph'])
+    N = G.order()
+    name = case['sim']
+    simcase.seed_all(case['seed'])
+    try:
+        if name == 'discrete_SIR':
+            out = EoN.discrete_SIR(G, args=(case['p'],), rho=case['rho'], tmin=case['tmin'])
+        elif name == 'basic_discrete_SIS':
+            out = EoN.basic_discrete_SIS(G, case['p'], rho=case['rho'], tmin=case['tmin'], tmax=case['tmin'] + 6)
+        else:
+            out = getattr(EoN, name)(G, case['p'], rho=case['rho'], tmin=case['tmin'])
+    except Exception as e:
+        viol(res, '%s|rho|exception:%s' % (name, simcase.exc_key(e)), {'err': repr(e)})
+        return
+    cols = [np.asarray(a).tolist() for a in out[1:]]
+    bump(res, 'rho_runs_checked')
+    tot = [sum(c[i] for c in cols) for i in range(len(cols[0]))]
+    if any(x != N for x in tot):
+        viol(res, '%s|rho|counts_sum_to_N' % name, {'totals': tot[:6], 'N': N, 'rho': case['rho']})
+        return
+    if name != 'basic_discrete_SIS':
+        S, I, R = cols
+        if any(R[i + 1] - R[i] != I[i] for i in range(len(R) - 1)):
+            viol(res, '%s|rho|infectious_for_exactly_one_step' % name, {'I': I[:5], 'R': R[:5], 'rho': case['rho']})
+            return
+    if len(cols[0]) > 1:
+        res['nontrivial'] = 'rho:%s:%s:%s' % (name, gen.iso_key(case['graph']), case['rho'])
+        res['sample'] = {'kind': 'rho', 'sim': name, 'graph': case['graph'], 'rho': case['rho'], 'rows': len(cols[0])}
+
+
 def run_enum(case, res):
     import EoN
     G, lab = gen.build_graph(case['graph'])
@@ -456,5 +497,5 @@ def run_perc(case, res):
 
 def run_case(case):
     res = new_result()
-    {'table': run_table, 'trials': run_trials, 'trials_sis': run_trials_sis, 'enum': run_enum, 'perc': run_perc}[case['kind']](case, res)
+    {'table': run_table, 'trials': run_trials, 'trials_sis': run_trials_sis, 'enum': run_enum, 'perc': run_perc, 'rho': run_rho}[case['kind']](case, res)
     return res
